@@ -20,9 +20,9 @@ var tableTests = []string{"eql", "eq", "equal", "equalp"}
 
 // keys of the full alphabet: every hashable kind, incl. pointer-represented
 // (bignum, ratio, long-float, vector) and slice/map-represented (list, hash-table) keys.
-var fullKeysQuick = []string{"i1", "d1", "big64a", "big64b", "r12a", "r12b", "sabc_a", "sabc_b", "SABC", "yabc", "kabc",
+var fullKeysQuick = []string{"i1", "d1", "big64a", "big64b", "r12a", "r12b", "sabc_a", "sabc_b", "SABC", "yabc",
 	"ca", "nil", "l12a", "v12a", "h0a"}
-var fullKeysThorough = append(append([]string{}, fullKeysQuick...), "f1", "l1", "l1b", "cA", "empty")
+var fullKeysThorough = append(append([]string{}, fullKeysQuick...), "kabc", "f1", "l1", "l1b", "cA", "empty")
 
 // keys of the sub-alphabet explored to the fixpoint of the reachable contents
 var subKeysQuick = []string{"i1", "d1", "big64a", "big64b"}
